@@ -102,6 +102,7 @@ type RunCfg struct {
 	Filters    bool    `json:"message_class_filters"`
 	EvForger   bool    `json:"evidence_forger"`
 	Director   bool    `json:"round_director"`
+	IDTwins    bool    `json:"byzantine_vote_for_block_id_twins"`
 	WalHeadLimit int   `json:"wal_head_size_limit"` // crash mode: 0 = the product's default (10 MB, never reached)
 }
 
@@ -145,6 +146,7 @@ type Sim struct {
 	learnedSaved map[int]int
 	filters    []*classFilter
 	dir        *director
+	baitSilent map[uint64]uint32 // height -> last round in which lock-bait validators still vote (late-polka plan)
 	afterQ     func() // crash engine: poll for WAL rotation at quiescent points
 	holdDst    int           // crash engine: node that gets no proposal / parts until holdUntil (-1 = none)
 	holdUntil  time.Duration
@@ -304,7 +306,8 @@ func (s *Sim) liveNodes() []*kit.Node {
 
 // schedule puts a message on the wire with tape-chosen faults.
 func (s *Sim) schedule(m *Msg) {
-	if s.cut[[2]int{m.Src, m.Dst}] {
+	calm := s.calm(m)
+	if !calm && s.cut[[2]int{m.Src, m.Dst}] {
 		s.res.Fault("partition-drop")
 		if m.Key != "" {
 			s.backoff(m.Key, true)
@@ -330,7 +333,7 @@ func (s *Sim) schedule(m *Msg) {
 		heap.Push(&s.q, m)
 		return
 	}
-	if s.filtered(m) {
+	if !calm && s.filtered(m) {
 		s.res.Fault("class-filter-drop")
 		if m.Key != "" {
 			s.backoff(m.Key, true)
@@ -338,7 +341,7 @@ func (s *Sim) schedule(m *Msg) {
 		return
 	}
 	delay := time.Duration(0)
-	if s.faultsOn {
+	if s.faultsOn && !calm {
 		c := s.cfg
 		if c.DropPct > 0 && s.tape.Chance(c.DropPct, 100) {
 			s.res.Fault("drop")
